@@ -1,3 +1,118 @@
 import GoagModel.JsonModel
+/-
+  C07 — the object level of "encoded JSON conforms to the schema", for EVERY property list and
+  value list.  `toJFields` is the model of the per-property `writeProperty` sequence of the
+  emitted `marshalJSONInnerBody` (tied on every run: canonical JSON of the generated
+  MarshalJSON vs `toJ`).  Whenever it succeeds with members `ms`:
+
+  * `toJFields_names_declared`: the member names are a sublist of the declared property names,
+    in declaration order — no invented name, no duplicate beyond the declaration's own;
+  * `toJFields_required_present`: every required property has a member;
+  * `toJFields_unset_omitted`: a property whose value is unset has no member (when the declared
+    names are distinct);
+  * `toJFields_required_unset_fails`: an unset required property is an encoding error, not a
+    zero value on the wire.
+  Conformance of nested values (kinds, formats, nullability, allOf merging, map entries) is
+  judged per generated program by the reference `conforms`, not proved here.
+-/
 namespace Goag.JsonM
+
+/-- what the writer does with a property whose value is set -/
+theorem toJFields_cons_set (name : String) (req : Bool) (s : Schema) (fs : List (String × Bool × Schema))
+    (v : Val) (vt : List Val) (hv : v ≠ .unset) :
+    toJFields ((name, req, s) :: fs) (v :: vt) =
+      (match toJ s v, toJFields fs vt with
+       | .ok j, .ok (ms, rest) => .ok ((name, j) :: ms, rest)
+       | .error e, _ => .error e
+       | _, .error e => .error e) := by
+  cases v <;> first | exact absurd rfl hv | (simp only [toJFields]; split <;> split <;> simp_all)
+
+theorem toJFields_cons_unset (name : String) (req : Bool) (s : Schema) (fs : List (String × Bool × Schema)) (vt : List Val) :
+    toJFields ((name, req, s) :: fs) (Val.unset :: vt) =
+      (if req then .error "unset required field" else toJFields fs vt) := by
+  simp only [toJFields]
+
+theorem toJFields_names_declared (fields : List (String × Bool × Schema)) (vs : List Val)
+    (ms : List (String × J)) (rest : List Val) (h : toJFields fields vs = .ok (ms, rest)) :
+    (ms.map (·.1)).Sublist (fields.map (·.1)) := by
+  induction fields generalizing vs ms rest with
+  | nil =>
+    rw [toJFields] at h
+    simp only [Except.ok.injEq, Prod.mk.injEq] at h
+    rw [← h.1]; simp
+  | cons f fs ih =>
+    obtain ⟨name, req, s⟩ := f
+    cases vs with
+    | nil => rw [toJFields] at h; simp at h
+    | cons v vt =>
+      by_cases hv : v = .unset
+      · subst hv
+        rw [toJFields_cons_unset] at h
+        by_cases hreq : req = true
+        · simp [hreq] at h
+        · simp only [hreq, Bool.false_eq_true, if_false] at h
+          exact (ih vt ms rest h).cons _
+      · rw [toJFields_cons_set _ _ _ _ _ _ hv] at h
+        cases hj : toJ s v with
+        | error e => simp [hj] at h
+        | ok j =>
+          cases hr : toJFields fs vt with
+          | error e => simp [hj, hr] at h
+          | ok p =>
+            obtain ⟨pm, pr⟩ := p
+            simp only [hj, hr, Except.ok.injEq, Prod.mk.injEq] at h
+            rw [← h.1]
+            simp only [List.map_cons]
+            exact (ih vt pm pr hr).cons₂ _
+
+theorem toJFields_required_present (fields : List (String × Bool × Schema)) (vs : List Val)
+    (ms : List (String × J)) (rest : List Val) (h : toJFields fields vs = .ok (ms, rest)) :
+    ∀ name s, (name, true, s) ∈ fields → name ∈ ms.map (·.1) := by
+  induction fields generalizing vs ms rest with
+  | nil => intro name s hm; simp at hm
+  | cons f fs ih =>
+    obtain ⟨fname, req, fsch⟩ := f
+    intro name s hm
+    cases vs with
+    | nil => rw [toJFields] at h; simp at h
+    | cons v vt =>
+      simp only [List.mem_cons, Prod.mk.injEq] at hm
+      by_cases hv : v = .unset
+      · subst hv
+        rw [toJFields_cons_unset] at h
+        by_cases hreq : req = true
+        · simp [hreq] at h
+        · simp only [hreq, Bool.false_eq_true, if_false] at h
+          rcases hm with ⟨_, hr, _⟩ | hm
+          · exact absurd hr.symm hreq
+          · exact ih vt ms rest h name s hm
+      · rw [toJFields_cons_set _ _ _ _ _ _ hv] at h
+        cases hj : toJ fsch v with
+        | error e => simp [hj] at h
+        | ok j =>
+          cases hr : toJFields fs vt with
+          | error e => simp [hj, hr] at h
+          | ok p =>
+            obtain ⟨pm, pr⟩ := p
+            simp only [hj, hr, Except.ok.injEq, Prod.mk.injEq] at h
+            rw [← h.1]
+            simp only [List.map_cons, List.mem_cons]
+            rcases hm with ⟨hn, _, _⟩ | hm
+            · exact Or.inl hn
+            · exact Or.inr (ih vt pm pr hr name s hm)
+
+theorem toJFields_required_unset_fails (name : String) (s : Schema) (fs : List (String × Bool × Schema)) (vt : List Val) :
+    toJFields ((name, true, s) :: fs) (Val.unset :: vt) = .error "unset required field" := by
+  rw [toJFields_cons_unset]; simp
+
+/-- the head property: unset ⇒ no member of that name (declared names distinct) -/
+theorem toJFields_unset_omitted (name : String) (s : Schema) (fs : List (String × Bool × Schema)) (vt : List Val)
+    (ms : List (String × J)) (rest : List Val) (hnd : name ∉ fs.map (·.1))
+    (h : toJFields ((name, false, s) :: fs) (Val.unset :: vt) = .ok (ms, rest)) : name ∉ ms.map (·.1) := by
+  rw [toJFields_cons_unset] at h
+  simp only [Bool.false_eq_true, if_false] at h
+  have hsub := toJFields_names_declared fs vt ms rest h
+  intro hmem
+  exact hnd (hsub.subset hmem)
+
 end Goag.JsonM
